@@ -24,6 +24,8 @@ type RangeProver struct {
 	V     []*big.Int // optional: hiders v_i chosen by the (cheating) prover; default random Lm-bit values
 	// ForceC, if set, replaces every commitment C_i by this value (e.g. 0 or N: not a group element)
 	ForceC *big.Int
+	// OwnMResponse: the returned proof carries its own response for m (MRand + c*M) instead of leaving it to the verifier
+	OwnMResponse bool
 
 	v, dRand, vRand []*big.Int
 	v5, v5Rand      *big.Int
@@ -79,6 +81,9 @@ func (p *RangeProver) Respond(c *big.Int) *rangeproof.Proof {
 		out.Cs = append(out.Cs, new(big.Int).Set(p.c[i]))
 		out.DResponses = append(out.DResponses, new(big.Int).Add(p.dRand[i], new(big.Int).Mul(c, p.D[i])))
 		out.VResponses = append(out.VResponses, new(big.Int).Add(p.vRand[i], new(big.Int).Mul(c, p.v[i])))
+	}
+	if p.OwnMResponse {
+		out.MResponse = new(big.Int).Add(p.MRand, new(big.Int).Mul(c, p.M))
 	}
 	return out
 }
